@@ -1,5 +1,5 @@
 import SkimModel.Driver.Util
-import SkimModel.Model.Session
+import SkimModel.Model.SessionFG
 import SkimModel.Model.Editor
 /-
 Trace acceptance for headless sessions (C01, C14, session parts of C10/C05).
@@ -38,6 +38,8 @@ structure Ctx where
   runCmd : List (Nat × Nat) := []                 -- run number -> command id
   multi : Bool := false
   lastClear : String := "D"                       -- clear strategy at the last snapshot
+  decided : Option String := none                 -- the select-1 / exit-0 decision the real code has taken so far
+  pc : PC := .idle                                -- M's program counter inside a heart-beat handler (read-granularity replay)
   listCid : Option Nat := none                    -- command whose items the displayed list held at the last snapshot
   transientSel : Bool := false                    -- a selection action was issued while the list still belonged to another command run
   ed : SkimModel.Editor.Ed := {}                  -- the query editor driven by the same editing events (C18's model)
@@ -145,6 +147,23 @@ def judgeOut (c : Ctx) (s : S) (kvs : List String) : Ctx :=
            else flagBad c s!"final-key:got[{kvGet kvs "key"}]want[{wk}]"
   c
 
+/-- the displayed list still belongs to another command run than the current one (a re-run is pending): selections made
+    now have unspecified identities (excluded by C10/C05) -/
+def inTransient (c : Ctx) : Bool :=
+  c.lastClear == "N" || (match c.listCid with | some l => l != c.cid | none => false)
+
+/-- one micro-step of M in the fine-grained system; `rd = false` makes a read return `false` (stale reading) -/
+def mGo (c : Ctx) (s : S) (rd : Bool) : Ctx × S :=
+  match mstep ({ s := s, pc := c.pc } : FSt Nat Nat) rd with
+  | some f => ({ c with pc := f.pc }, f.s)
+  | none => (flagMis c s!"micro-step-not-enabled:{repr c.pc}", s)
+
+/-- a read micro-step: the observed value against the model's current value (a `true` needs a true flag) -/
+def mRead (c : Ctx) (s : S) (name obs : String) (actual : Bool) : Ctx × S :=
+  let (rd, ok) := readFlag obs actual
+  let c1 := if ok then c else flagMis c s!"read-impossible:{name}={obs}/{actual}@{repr c.pc}"
+  mGo c1 s rd
+
 def applyTok (m : Nat → Nat → Bool) (cs : Ctx × S) (tok : List String) : Ctx × S :=
   let c := { cs.1 with step := cs.1.step + 1 }
   let s := cs.2
@@ -158,6 +177,55 @@ def applyTok (m : Nat → Nat → Bool) (cs : Ctx × S) (tok : List String) : Ct
   | ["T<"] => viaStep .tTake "T<"
   | ["Tp"] => viaStep .tPublish "Tp"
   | ["Ts"] => viaStep .tStop "Ts"
+  -- heart-beat handler at READ granularity (Model/SessionFG.lean); the other threads' tokens between these are in trace order
+  | ["Mb"] =>
+      if c.pc != .idle then (flagMis c s!"heart-beat-inside-a-handler:{repr c.pc}", s)
+      else ({ c with pc := .hb1, lastWasSel := false }, s)
+  | ["Mrs", v] =>
+      if c.pc != .hb1 then (flagMis c s!"unexpected-is_done-read@{repr c.pc}", s) else mRead c s "rs" v (readerDone s)
+  | ["Mms", v] =>
+      (match c.pc with
+       | .hb2 _ => mRead c s "ms" v (matcherStopped s)
+       | _ => (flagMis c s!"unexpected-stopped-read@{repr c.pc}", s))
+  | ["Mhv"] =>
+      (match c.pc with
+       | .hb3 _ true => mGo c s true
+       | _ => (flagMis c s!"harvest-the-model-cannot-make@{repr c.pc}", s))
+  | ["Mic", v] =>
+      let (c1, s1) := match c.pc with
+        | .hb3 _ false => mGo c s true          -- no harvest in this heart beat
+        | .hb3 _ true => (flagMis c "model-harvests-implementation-does-not", s)
+        | _ => (c, s)
+      (match c1.pc with
+       | .hb4 _ => mRead c1 s1 "ic" v (itemsConsumed s1)
+       | _ => (flagMis c1 s!"unexpected-num_not_taken-read@{repr c1.pc}", s1))
+  | ["Mfin"] =>
+      (match c.pc with
+       | .hb5 _ _ => mGo c s true
+       | _ => (c, s))
+  | ["Ms1", ic, rs] =>
+      let (c1, s1) := match c.pc with
+        | .hb5 _ _ => mGo c s true
+        | _ => (c, s)
+      if c1.pc != .s1 then (flagMis c1 s!"select-check-entered@{repr c1.pc}", s1) else
+      let (c2, s2) := mRead c1 s1 "ic'" ic (itemsConsumed s1)
+      mRead c2 s2 "rs'" rs (readerDone s2)
+  | ["Mdec"] =>
+      (match c.pc with
+       | .s3 true true =>
+           let (c1, s1) := mGo c s true
+           if s.mc.isNone then (c1, s1) else (flagMis c1 "implementation-decides-model-does-not", s1)
+       | _ => (flagMis c s!"decision-the-model-cannot-take@{repr c.pc}", s))
+  | ["Me"] =>
+      let (c1, s1) := match c.pc with
+        | .hb5 _ _ => mGo c s true
+        | _ => (c, s)
+      let (c2, s2) := match c1.pc with
+        | .s3 ic rs =>
+            let (c2, s2) := mGo c1 s1 true
+            if ic && rs && s1.mc.isNone then (flagMis c2 "model-decides-implementation-does-not", s2) else (c2, s2)
+        | _ => (c1, s1)
+      if c2.pc == .idle then (c2, s2) else (flagMis { c2 with pc := .idle } s!"handler-ends@{repr c2.pc}", s2)
   | ["HB", rs, ms, ic, ic2, rs2] =>
       let (frs, ok1) := readFlag rs (readerDone s)
       let (fms, ok2) := readFlag ms (matcherStopped s)
@@ -171,9 +239,9 @@ def applyTok (m : Nat → Nat → Bool) (cs : Ctx × S) (tok : List String) : Ct
       let cid := cid.toNat?.getD 0
       ({ c with cid := cid, lastWasSel := false, runCmd := (run.toNat?.getD 0, cid) :: c.runCmd },
         handleUser s (.setCmd (run.toNat?.getD 0) (srcOf c cid)))
-  | ["Ut", idx] => ({ c with lastWasSel := true, transientSel := c.transientSel || c.lastClear == "N" }, handleUser s (.toggle (idx.toNat?.getD 0)))
-  | ["Usa"] => ({ c with lastWasSel := true, transientSel := c.transientSel || c.lastClear == "N" }, handleUser s .selectAll)
-  | ["Uta"] => ({ c with lastWasSel := true, transientSel := c.transientSel || c.lastClear == "N" }, handleUser s .toggleAll)
+  | ["Ut", idx] => ({ c with lastWasSel := true, transientSel := c.transientSel || inTransient c }, handleUser s (.toggle (idx.toNat?.getD 0)))
+  | ["Usa"] => ({ c with lastWasSel := true, transientSel := c.transientSel || inTransient c }, handleUser s .selectAll)
+  | ["Uta"] => ({ c with lastWasSel := true, transientSel := c.transientSel || inTransient c }, handleUser s .toggleAll)
   | ["Uda"] => ({ c with lastWasSel := true }, handleUser s .deselectAll)
   | ["Uo"] => ({ c with lastWasSel := false }, handleUser s .other)
   | ["Uacc"] => ({ c with lastWasSel := false }, handleUser s .accept)
@@ -202,7 +270,13 @@ def applyTok (m : Nat → Nat → Bool) (cs : Ctx × S) (tok : List String) : Ct
       let want := if total == 1 && c.select1 then "accept"
                   else if total == 0 && c.exit0 then "abort" else "interactive"
       let c2 := if quiet && kind != want then flagBad c1 s!"wrong-decision:{kind},expected={want},matching={total}" else c1
-      (c2, s)
+      -- "... otherwise the interactive session starts and neither option fires later".  (An accept / abort may be decided again
+      -- by a heart beat that runs before the first one's event has been handled: same state, same outcome, the session ends on
+      -- the first; the model does the same.)
+      let c3 := match c2.decided with
+        | some "interactive" => flagBad c2 s!"decision-after-the-interactive-session-started:{kind}"
+        | _ => c2
+      ({ c3 with decided := some kind }, s)
   | ["IDLEFAIL"] => (flagBad c "not-quiescent-without-keystroke", s)
   | ["CUR", i] => ({ c with lastCur := i.toNat? }, s)
   | ["EV", e] =>
